@@ -50,7 +50,14 @@ def plan(tier, seed):
         per, nshards = 30, 64
     U = [{'cfg': c, 'per_op': per} for c in cfgs]
     rng.shuffle(U)
-    return [{'units': part} for part in gen.split(U, nshards)]
+    shards = [{'units': part} for part in gen.split(U, nshards)]
+    # capacity histories: hundreds of patterns on one operator of one algebra (d >= 4 so that enough distinct small patterns exist)
+    caps = [({'p': 3, 'q': 0, 'r': 1}, 300), ({'p': 4, 'q': 1, 'r': 0}, 400), ({'p': 4, 'q': 0, 'r': 0, 'opts': {'wrapper': 'identity'}}, 200), ({'p': 5, 'q': 0, 'r': 0}, 600)]
+    if tier != 'quick':
+        caps = caps * 4 + [({'p': 4, 'q': 1, 'r': 1}, 1500), ({'p': 6, 'q': 0, 'r': 0}, 1100)]
+    for i, c in enumerate(caps):
+        shards[i % len(shards)].setdefault('capacity', []).append(c)
+    return shards
 
 
 def values(rng, alg, keys, kind, tag):
@@ -97,6 +104,9 @@ def regfuncs(alg):
 def run_shard(shard, ctx):
     ge = monitors.GenEvents().install()
     try:
+        for ccfg, npat in shard.get('capacity', []):
+            if not ctx.out_of_time():
+                capacity_history(ctx, ge, ccfg, npat)
         for unit in shard['units']:
             cfg = unit['cfg']
             name = gen.cfg_str(cfg)
@@ -128,6 +138,60 @@ def run_shard(shard, ctx):
         ge.uninstall()
         for k, v in ge.evaluations.items():
             ctx.count('hook_evaluations_' + k, v)
+
+
+def capacity_history(ctx, ge, cfg, npatterns):
+    """One operator of one algebra used with several hundred distinct key patterns, then the earliest ones again: an entry, once
+    generated, stays - however many other patterns the same operator has served since."""
+    from kingdon.multivector import MultiVector
+    rng = ctx.rng
+    alg = gen.make_or_skip(ctx, cfg)
+    if alg is None:
+        return
+    name = gen.cfg_str(cfg)
+    canon = tuple(alg.canon2bin.values())
+    opname = rng.choice(('add', 'gp', 'op', 'reverse', 'neg'))
+    target = getattr(alg, opname)
+    arity = 1 if opname in ops.UNARY else 2
+    cid = [name, 'capacity', opname, npatterns]
+    if not ctx.want(cid):
+        return
+    pats = []
+    seen = set()
+    while len(pats) < npatterns and len(seen) < 20000:
+        p_ = tuple(tuple(rng.sample(canon, rng.randint(1, 2))) for _ in range(arity))
+        if p_ in seen:
+            continue
+        seen.add(p_)
+        pats.append(p_)
+
+    def call(p_):
+        return target(*[MultiVector.fromkeysvalues(alg, ks, [2 + i for i in range(len(ks))]) for ks in p_])
+    mark = ge.snapshot()
+    for p_ in pats:
+        st, _r = ctx.guarded(30, call, p_)
+        if st != 'ok':
+            return
+        if ctx.out_of_time():
+            return
+    first_pass = ge.delta(mark)
+    ctx.count('capacity_histories')
+    ctx.count('capacity_history_patterns', len(pats))
+    ctx.case(cid)
+    regenerated = []
+    for p_ in pats[:12] + pats[len(pats) // 2: len(pats) // 2 + 4]:
+        before, sizes = ge.snapshot(), monitors.cache_sizes(alg)
+        st, _r = ctx.guarded(30, call, p_)
+        d = ge.delta(before)
+        after = monitors.cache_sizes(alg)
+        growth = {k: after[k] - sizes.get(k, 0) for k in after if after[k] != sizes.get(k, 0)}
+        ctx.count('repeat_calls_checked')
+        if any(d.values()) or growth:
+            regenerated.append([[list(k) for k in p_], {k: v for k, v in d.items() if v}, growth])
+    if regenerated:
+        ctx.violation('code generated again for a cached key pattern', cid, config=cfg, op=opname, patterns_used_in_between=len(pats),
+                      regenerated=regenerated[:6], n_regenerated=len(regenerated), first_pass_events={k: v for k, v in first_pass.items() if v},
+                      events=regenerated[0][1], cache_growth=regenerated[0][2], keys=regenerated[0][0], coefficient_kind='int')
 
 
 def one_case(ctx, ge, alg, regs, cfg, name, op):
@@ -169,9 +233,29 @@ def one_case(ctx, ge, alg, regs, cfg, name, op):
         mvs = [MultiVector.fromkeysvalues(alg, ks if isinstance(ks, range) else tuple(ks), v if hasattr(v, 'shape') else list(v)) for ks, v in zip(keysets, vals)]
         return target(*mvs)
 
-    def observe(kind, tag):
+    def call_in_thread(kind, tag):
+        # the same call made from another thread that is started and joined here: strictly sequential, only the calling thread differs
+        import threading
+        box = {}
+
+        def work():
+            try:
+                box['r'] = ('ok', call(kind, tag))
+            except Exception as e:       # noqa
+                box['r'] = ('exc', e)
+        t = threading.Thread(target=work)
+        t.start()
+        t.join(60)
+        if t.is_alive() or 'r' not in box:
+            return 'timeout', None
+        return box['r']
+
+    def observe(kind, tag, in_thread=False):
         before, sizes = ge.snapshot(), monitors.cache_sizes(alg)
-        st, out = ctx.guarded(60, call, kind, tag)
+        if in_thread:
+            st, out = call_in_thread(kind, tag)
+        else:
+            st, out = ctx.guarded(60, call, kind, tag)
         d = ge.delta(before)
         after = monitors.cache_sizes(alg)
         growth = {k: after[k] - sizes.get(k, 0) for k in after if after[k] != sizes.get(k, 0)}
@@ -221,7 +305,10 @@ def one_case(ctx, ge, alg, regs, cfg, name, op):
             k2 = [gen.random_subset(rng, canon, 4, 1) for _ in range(2)]
             ctx.guarded(30, lambda: getattr(alg, o2)(*[gen.mv_from(alg, ks, [1] * len(ks)) for ks in k2]))
             ctx.count('interleaved_other_calls')
-        st, out, d, growth = observe(kind, f'q{j}')
+        in_thread = kind not in ('raising-None', 'sympy', 'mixed') and rng.random() < 0.3
+        st, out, d, growth = observe(kind, f'q{j}', in_thread=in_thread)
+        if in_thread:
+            ctx.count('repeat_calls_from_another_thread')
         if st == 'timeout':
             ctx.count('case_timeouts')
             continue
@@ -234,4 +321,5 @@ def one_case(ctx, ge, alg, regs, cfg, name, op):
         if any(d.values()) or growth:
             ctx.violation('code generated again for a cached key pattern', cid + [kind], config=cfg, op=op,
                           keys=[list(k) for k in keysets], coefficient_kind=kind, events={k: v for k, v in d.items() if v},
-                          cache_growth=growth, call_outcome=('raised ' + type(out).__name__) if st == 'exc' else 'returned')
+                          cache_growth=growth, call_outcome=('raised ' + type(out).__name__) if st == 'exc' else 'returned',
+                          called_from='another thread (started and joined)' if in_thread else 'main thread')
